@@ -177,13 +177,21 @@ def unit_corpus(a):
     return stats
 
 
+def check_big(case, stats):
+    return check_stream({"sub": "stream", "sources": [case["text"], "Feature: after\n Scenario: s\n  Given x\n"], "opts": [True, True, True], "api": "enum"}, stats)
+
+
 def replay(case, stats):
+    if case["sub"] == "big":
+        return check_big(case, stats)
     return check_stream(case, stats)
 
 
 def run(ctx):
     q = ctx.quick
     ctx.units("corpus-all-options", unit_corpus, [{}])
+    from . import magnitude
+    magnitude.run_big(ctx, "c17", "check_big", "big")
     ctx.units("generated-streams", unit_stream, [{"n": 300 if q else 3000, "seed": ctx.seed, "shard": i} for i in range(8 if q else 16)], procs=16)
     ctx.rule = ("streams of 1..4 sources (valid, mutated, rejected, CRLF, BOM) written to files, loaded by SourceEvents and pushed through one GherkinEvents with each of the 8 option "
                 "combinations, or through scripts.generate_events.main in-process; oracle: envelope sequence per source = [source?][gherkinDocument?][pickle*] built from the reference "
